@@ -507,8 +507,9 @@ func main() {
 				if res := seen[trustpolicy.TypeIntegrity]; res == nil || res.Error != nil {
 					r.Violation(sigOf("integrity-result-missing"), "accepted without a passing integrity result", wit)
 				}
-				if (seen[trustpolicy.TypeRevocation] != nil) != want.revDone {
-					r.Violation(sigOf("revocation-result-presence"), fmt.Sprintf("revocation result present=%v, revocation performed per level=%v", seen[trustpolicy.TypeRevocation] != nil, want.revDone), wit)
+				// a performed revocation validation must be reported; whether a skipped one is listed (with action skip) is not stated
+				if want.revDone && seen[trustpolicy.TypeRevocation] == nil {
+					r.Violation(sigOf("revocation-result-presence"), "revocation was performed per level but no revocation result is reported in the accepted outcome", wit)
 				}
 			}
 		} else {
